@@ -470,7 +470,8 @@ def check_tables(ck, eng, name):
                     n_reads = {sum(1 for e in o.state.effects
                                    if is_port_call(e, ('readline', 'read', 'read_until')))
                                for o in outs}
-                    ck.ob('C05-D2-first-line-is-the-reply', inst, n_reads == {1},
+                    n_reads.discard(0)       # paths that return before the exchange
+                    ck.ob('C05-D2-first-line-is-the-reply', inst, n_reads <= {1},
                           '%s with reply class "%s" (a line arrives at the first read) performs '
                           '%s reads: only empty reads may be repeated; a non-empty line is the '
                           'reply, whatever it says' % (q, reply[0], sorted(n_reads)), fn.loc(),
